@@ -30,6 +30,9 @@ structure TriggerStats where
 def TriggerStats.collect_stats (self_ : TriggerStats) (trigger : Nat) : (Unit × TriggerStats) :=
   (let self__1 := { self_ with f_orbit := ((self_.f_orbit + (if (((trigger &&& (Rs.mask 0 1)) != 0)) then 1 else 0)) % 2^32) }; (let self_ := { self__1 with f_hb := ((self__1.f_hb + (if (((trigger &&& (Rs.mask 1 1)) != 0)) then 1 else 0)) % 2^32) }; (let self__3 := { self_ with f_hbr := ((self_.f_hbr + (if (((trigger &&& (Rs.mask 2 1)) != 0)) then 1 else 0)) % 2^32) }; (let self_ := { self__3 with f_hc := ((self__3.f_hc + (if (((trigger &&& (Rs.mask 3 1)) != 0)) then 1 else 0)) % 2^32) }; (let self__5 := { self_ with f_pht := ((self_.f_pht + (if (((trigger &&& (Rs.mask 4 1)) != 0)) then 1 else 0)) % 2^32) }; (let self_ := { self__5 with f_pp := ((self__5.f_pp + (if (((trigger &&& (Rs.mask 5 1)) != 0)) then 1 else 0)) % 2^32) }; (let self__7 := { self_ with f_cal := ((self_.f_cal + (if (((trigger &&& (Rs.mask 6 1)) != 0)) then 1 else 0)) % 2^32) }; (let self_ := { self__7 with f_sot := ((self__7.f_sot + (if (((trigger &&& (Rs.mask 7 1)) != 0)) then 1 else 0)) % 2^32) }; (let self__9 := { self_ with f_eot := ((self_.f_eot + (if (((trigger &&& (Rs.mask 8 1)) != 0)) then 1 else 0)) % 2^32) }; (let self_ := { self__9 with f_soc := ((self__9.f_soc + (if (((trigger &&& (Rs.mask 9 1)) != 0)) then 1 else 0)) % 2^32) }; (let self__11 := { self_ with f_eoc := ((self_.f_eoc + (if (((trigger &&& (Rs.mask 10 1)) != 0)) then 1 else 0)) % 2^32) }; (let self_ := { self__11 with f_tf := ((self__11.f_tf + (if (((trigger &&& (Rs.mask 11 1)) != 0)) then 1 else 0)) % 2^32) }; (let self__13 := { self_ with f_fe_rst := ((self_.f_fe_rst + (if (((trigger &&& (Rs.mask 12 1)) != 0)) then 1 else 0)) % 2^32) }; (let self_ := { self__13 with f_rt := ((self__13.f_rt + (if (((trigger &&& (Rs.mask 13 1)) != 0)) then 1 else 0)) % 2^32) }; (let self__15 := { self_ with f_rs := ((self_.f_rs + (if (((trigger &&& (Rs.mask 14 1)) != 0)) then 1 else 0)) % 2^32) }; (let self_ := { self__15 with f_lhc_gap1 := ((self__15.f_lhc_gap1 + (if (((trigger &&& (Rs.mask 27 1)) != 0)) then 1 else 0)) % 2^32) }; (let self__17 := { self_ with f_lhc_gap2 := ((self_.f_lhc_gap2 + (if (((trigger &&& (Rs.mask 28 1)) != 0)) then 1 else 0)) % 2^32) }; (let self_ := { self__17 with f_tpc_sync := ((self__17.f_tpc_sync + (if (((trigger &&& (Rs.mask 29 1)) != 0)) then 1 else 0)) % 2^32) }; (let self__19 := { self_ with f_tpc_rst := ((self_.f_tpc_rst + (if (((trigger &&& (Rs.mask 30 1)) != 0)) then 1 else 0)) % 2^32) }; (let self_ := { self__19 with f_tof := ((self__19.f_tof + (if (((trigger &&& (Rs.mask 31 1)) != 0)) then 1 else 0)) % 2^32) }; ((), self_)))))))))))))))))))))
 
+def TriggerStats.pht (self_ : TriggerStats) : Nat :=
+  self_.f_pht
+
 /-! kernel-checked: every literal mask was split into contiguous runs correctly -/
 example : (Rs.mask 0 1) = 1 := by decide
 example : (Rs.mask 1 1) = 2 := by decide
